@@ -219,7 +219,8 @@ def real():
 
 
 def show(w: str) -> str:
-    return ascii(w)
+    """ascii rendering; the position marker of marked languages is shown as <|>"""
+    return ascii(w).replace("\\U0002ffff", "<|>")
 
 
 # ----------------------------------------------------------------------------------------
@@ -628,7 +629,9 @@ def priority_obs(c: Ctx) -> List[RxOb]:
     obs: List[RxOb] = []
     for i, j in itertools.combinations(range(len(c.names)), 2):
         ni, nj = c.names[i], c.names[j]
-        name = f"C10/priority/{ni}/{nj}"
+        # the name is independent of the rule order (reordering two non-overlapping rules must
+        # not rename obligations); which rule is the earlier one is stated in the sample
+        name = "C10/priority/" + "/".join(sorted((ni, nj)))
         fn = [rule_fn(ni), rule_fn(nj)]
         bad = c.ok(ni, nj)
         if bad:
